@@ -29,6 +29,7 @@ class Manifest(DashElement):
         ('minimumUpdatePeriod', from_isodatetime, None),
         ('timeShiftBufferDepth', from_isodatetime, None),
         ('mediaPresentationDuration', from_isodatetime, None),
+        ('minBufferTime', from_isodatetime, None),
         ('profiles', set_from_comma_string, None),
         ('publishTime', from_isodatetime, None),
     ]
@@ -172,6 +173,10 @@ class Manifest(DashElement):
         self.elt.check_greater_than(
             len(self.periods), 0,
             msg=f'Manifest does not have a Period element: {self.url}')
+        self.attrs.check_not_none(
+            self.minBufferTime,
+            msg=f"MPD@minBufferTime must be present: {self.url}",
+            clause='5.3.1.2')
         if self.mode == "live":
             self.attrs.check_equal(
                 self.mpd_type, "dynamic",
